@@ -202,7 +202,11 @@ func explore(s *Scenario, c Component) {
 	vsched.Fine = s.OptInt("fine", 0) != 0
 	n := 0
 	switch s.Mode[0] {
-	case "dfs":
+	case "dfs", "dfsw":
+		if s.Mode[0] == "dfsw" {
+			vsched.PreemptBefore = map[int]bool{vsched.KCas: true, vsched.KStore: true, vsched.KAdd: true, vsched.KSwap: true}
+			defer func() { vsched.PreemptBefore = nil }()
+		}
 		vsched.MaxPreempt = atoi(s.Mode[1])
 		max := atoi(s.Mode[2])
 		vsched.Picker = nil
